@@ -139,11 +139,12 @@ func c13MakeTable(r *rand.Rand, delim byte, rows, cols int, crlf, quoted, traili
 }
 
 func c13Detect(c *fw.Ctx, kind string, d []byte, L uint32, note string) (lib.Chain, bool) {
-	key := fw.InputKey(d, L, "Detect")
-	c.Trace(func() (string, any) { return key, fw.MkInCase(kind, d, L, "Detect", note) })
+	entry := pickEntry(c)
+	key := fw.InputKey(d, L, entry)
+	c.Trace(func() (string, any) { return key, fw.MkInCase(kind, d, L, entry, note) })
 	var ch lib.Chain
-	ok := c.Guard(key, func() any { return fw.MkInCase(kind, d, L, "Detect", "panic") }, func() {
-		m := lib.Detect(d, L)
+	ok := c.Guard(key, func() any { return fw.MkInCase(kind, d, L, entry, "panic") }, func() {
+		m := detectEntry(d, L, entry)
 		anomalyC02(c, m, nil)
 		ch = lib.ChainOf(m)
 	})
@@ -615,6 +616,9 @@ func init() {
 			if err != nil {
 				fmt.Println("bad payload:", err)
 				return
+			}
+			if ic.Entry != "" && ic.Entry != "charset.FromPlain" {
+				forcedEntry = ic.Entry
 			}
 			t := baseTree()
 			p := strings.Split(ic.Aux, "|")
